@@ -458,6 +458,9 @@ class tensor:
         data[:] =
         [ 5. 13.]
         """
+        if i1 not in range(self.ndims) or i2 not in range(self.ndims):
+            assert False, "Must contract along dimensions in the range of self.ndims"
+
         if self.shape[i1] != self.shape[i2]:
             assert False, "Must contract along equally sized dimensions"
 
